@@ -17,7 +17,7 @@ import os
 import time
 from concurrent.futures import ThreadPoolExecutor
 
-from .. import bashrun, build, coqcheck, gen, impl, model, mspec, paths, report, sexp
+from .. import bashrun, build, canon, coqcheck, gen, impl, model, mspec, paths, report, sexp
 
 MANIFEST = dict(
     text=('Spec/Ambig.v: `unambiguous d` (no state with two outgoing literal/within-word items that read a common word and differ '
@@ -29,7 +29,6 @@ MANIFEST = dict(
           'the same command lines), '
           'C09_unambiguous (outside the known mechanisms), C09_fallback_transparent_spec (for the specification Spec/Meaning.v and '
           'the model of the level pass, replacing every || by | changes neither the matched lines nor, up to levels, the expected '
-<<<<<<< HEAD
           'items), C09_candidates_monotone_partial; Props/C09c.v: C09_fallback_transparent_complete and C09_candidates_monotone_spec '
           '(every required/allowed candidate of the | variant at a cursor position is one of the || grammar unless Spec/Undercut.v '
           'lists it as undercut by a strictly earlier level, on both tiers: || branches and pieces inside a word), '
@@ -38,18 +37,12 @@ MANIFEST = dict(
           'automaton of every generated grammar (biased to || branches and call variants starting with the same literal, within-word '
           'expressions repeated with permuted alternatives or through definitions), and the || script against the | script in real '
           'bash (same matched lines, candidates monotone in both directions with the undercut exception computed by the extracted '
-          'specification).'),
-=======
-          'items), C09_candidates_monotone_partial. Props/C09b.v, on the automata Driver.compile_valid builds: '
+          'specification). Props/C09b.v, on the automata Driver.compile_valid builds: '
           'C09_fallback_transparent_compiled (the automaton of a grammar and of its | variant accept the same item words up to levels and '
           'descriptions, match the same typed command lines and expect the same items after them; outside the known mechanisms the walk is '
-          'unique) and C09_unambiguous_compiled (grammar side: two readings of the same typed words have the same continuations). '
-          'The implementation is decided directly: extracted Ambig.find on Rust\'s minimised '
-          'automaton of every generated grammar (biased to || branches and call variants starting with the same literal, within-word '
-          'expressions repeated with permuted alternatives or through definitions), and the || script against the | script in real '
-          'bash (same matched lines, candidates monotone); and Rust\'s minimised automata of g and of bar(g), levels and descriptions erased, '
-          'are both judged against the normal form of g\'s validated tree by the proved judge Spec.Lang.equiv_dfa_expr.'),
->>>>>>> wp-regex
+          'unique) and C09_unambiguous_compiled (grammar side: two readings of the same typed words have the same continuations); '
+          'Rust\'s minimised automata of g and of bar(g), levels and descriptions erased, are both judged against the normal form of '
+          'g\'s validated tree by the proved judge Spec.Lang.equiv_dfa_expr.'),
     design='6 C09',
     technique='Coq-proved decision procedure run on the implementation\'s automaton + differential execution of || vs | scripts in real bash')
 
@@ -288,6 +281,22 @@ def run(ctx, res):
         reqs.append('ambig ' + m[4:-1])
         idx.append(i)
     outs = model.run(reqs)
+    # A known mechanism explains an instance only if the model of the pinned code predicts it: the model pipeline
+    # (Driver.compile on the same text) must give an automaton on which Ambig.find also reports an instance of that
+    # class.  An ambiguity of Rust's automaton that the model's automaton does not have is a new violation.
+    amb_idx = [i for i, o in zip(idx, outs) if o.startswith('(some')]
+    mouts = model.run(['compile bash 200000 %s' % sexp.quote(texts[i].decode('latin-1')) for i in amb_idx])
+    mreq, mreq_i = [], []
+    model_says = {}
+    for i, mo in zip(amb_idx, mouts):
+        mm = sexp.parse(mo)
+        if mm[0] == 'ok':
+            mreq.append('ambig ' + sexp.dump(mm[2])); mreq_i.append(i)
+            model_says[i] = ('dfa', mm[2])
+        else:
+            model_says[i] = ('other', mo[:200])
+    for i, ao in zip(mreq_i, model.run(mreq)):
+        model_says[i] = model_says[i] + (ao,)
     verdict = {}
     nontrivial = 0
     for i, o in zip(idx, outs):
@@ -310,6 +319,13 @@ def run(ctx, res):
             continue
         counters['decided_some'] += 1
         cls = witness_class(dsx, w, texts[i].decode('latin-1'))
+        ms = model_says.get(i)
+        if cls is not None and ms is not None and ms[0] == 'dfa':
+            mw = sexp.parse(ms[2]) if ms[2].startswith('(') else ['error']
+            mcls = witness_class(ms[1], mw, texts[i].decode('latin-1')) if mw[0] == 'some' else None
+            if mw[0] == 'none' or (mw[0] == 'some' and mcls != cls and canon.canon_dfa(ms[1]) != canon.canon_dfa(dsx)):
+                counters['known_class_not_predicted_by_model'] = counters.get('known_class_not_predicted_by_model', 0) + 1
+                cls = None
         verdict[i] = cls
         inputs = dsx[4][1:]
         replay = dict(grammar=texts[i].decode('latin-1'), kind='spec-judgement',
